@@ -17,6 +17,18 @@ def match_close(toks, i):
     return None
 
 
+def special_unquoted(toks):
+    """does a token list hold an unquoted token with a quote, brace or '#' byte inside (one token for the tokenizer, structure for
+    the byte-level skip)?  This is exactly the class the skip theorems exclude (skp_fields) and the known finding names."""
+    for t in toks:
+        if t.startswith("U:"):
+            h = t[2:]
+            bs = [h[k:k + 2] for k in range(0, len(h), 2)]
+            if any(b in ("22", "7b", "7d", "23") for b in bs):
+                return True
+    return False
+
+
 def run_text(ctx):
     rng = ctx.rng
     docs = []
@@ -51,7 +63,7 @@ def run_text(ctx):
                 variants.append((str(rng.choice([need, need + 1, n + 9, 64])), sched_str(sc)))
             variants.append((str(need), sched_str([1] * n)))
             for cap, sc in variants:
-                cases.append("tr.skip\t%s\t%s\t%s\t%d" % (cap, sc, hexs(d), i + 1)); meta.append((d, i, exp, "skip_container"))
+                cases.append("tr.skip\t%s\t%s\t%s\t%d" % (cap, sc, hexs(d), i + 1)); meta.append((d, i, exp, "skip_container" + ("*" if special_unquoted(toks[i:j + 1]) else "")))
         # skip_unquoted_value after an unquoted token: skips a following container, else leaves the stream alone
         uq = [i for i, t in enumerate(toks) if t.startswith("U:")]
         rng.shuffle(uq)
@@ -72,9 +84,11 @@ def run_text(ctx):
         o = impl[base + k]
         parts = o.split(" ")
         if not parts[0].startswith("SKIP@"):
-            ctx.fail("text-skip-err", "%s after token %d of %r (%s): %s" % (fn, i, d, cases[k].split("\t")[1], o), [cases[k]], [o], "SKIP then " + " ".join(exp)); continue
+            ctx.fail("text-skip-unquoted-special" if fn.endswith("*") else "text-skip-err", "%s after token %d of %r (%s): %s" % (fn, i, d, cases[k].split("\t")[1], o), [cases[k]], [o], "SKIP then " + " ".join(exp)); continue
         got = parts[1:-2]
-        if got != exp or parts[-2] != "END":
+        if (got != exp or parts[-2] != "END") and fn.endswith("*"):
+            ctx.fail("text-skip-unquoted-special", "%s after token %d of %r (cap %s): the skipped container holds an unquoted token with a quote / brace / '#' byte inside; continues with %s, token counting says %s" % (fn, i, d, cases[k].split("\t")[1], " ".join(got[:6]), " ".join(exp[:6])), [cases[k]], [o], " ".join(exp))
+        elif got != exp or parts[-2] != "END":
             ctx.fail("text-skip-lands", "%s after token %d of %r (cap %s) continues with %s, token counting says %s" % (fn, i, d, cases[k].split("\t")[1], " ".join(got[:6]), " ".join(exp[:6])), [cases[k]], [o], " ".join(exp))
     ctx.count("text_skip_cases", len(cases))
 
